@@ -64,7 +64,9 @@ def _validator(record_type: str):
         from referencing import Registry
         from referencing.jsonschema import SchemaResource
 
-        sdir = "/repo/semantiva/trace/schema"
+        import semantiva.trace as _st
+
+        sdir = os.path.join(os.path.dirname(_st.__file__), "schema")
         reg = Registry()
         schemas = {}
         for fn in os.listdir(sdir):
